@@ -30,7 +30,7 @@ def run_case(case, strict=False):  # pylint: disable=unused-argument
             closed = True
         elif closed and it.kind == "g" and it.u_step.read is not None and it.u_step.read.has_value("E") and it.out:
             nontrivial = True
-    return findings, {"nontrivial": nontrivial, "classes": sorted(cl), "truncated": tr.truncated,
+    return findings, {"nontrivial": nontrivial, "classes": sorted(cl), "truncated": tr.truncated, "excluded_known": case.get("meta", {}).get("excluded_known", 0),
                       "sample": {"regions": case["regions"], "config": case["config"],
                                  "prog": [i[1] if i[0] == "g" else i for i in case["prog"]]}}
 
